@@ -177,7 +177,8 @@ Definition is_message (d : bytes) : bool := starts_with [47] d.
 
 (* OscBundle.__init__ / _parse_contents.  The `while` loop and the recursion into
    nested bundles both consume [fuel]; [EFuel] = the real code would not return
-   (it does not for a negative element size: DESIGN.md F4, property C18). *)
+   (before the F4 repair it did not for a negative element size; with the bounds check
+   every iteration advances by at least 4 bytes). *)
 Fixpoint parse_bundle (fuel : nat) (dgram : bytes) : res packet :=
   match fuel with
   | O => Err EFuel
@@ -193,6 +194,8 @@ with parse_contents (fuel : nat) (dgram : bytes) (index : Z) (acc : list packet)
       | [] => Ok (rev acc)
       | _ =>
           get_int dgram index >>= fun '(size, i1) =>
+          (* bounds check of the repaired _parse_contents (fix of DESIGN.md F4, property C18) *)
+          if (size <? 0) || (zlen dgram <? i1 + size) then Err EParse else
           let content := slice dgram i1 (i1 + size) in
           let i2 := i1 + size in
           if is_bundle content then
